@@ -446,18 +446,22 @@ CHECKS = {
         rule=("case c<=2200 hashes a stream of exactly c bytes, later cases lengths 1024k-9..1024k+9, 1024k+1000..1023 (second padding block), random to 256 KiB "
               "(4 MiB in thorough); the stream is cut into update calls in five styles (one call, pieces chosen relative to the carried partial block: empty / under-fill / "
               "exactly complete / overshoot / whole blocks, uniform, up to 3000 bytes, mixed) with trailing zero-length updates; random buffer alignment; context memory "
-              "filled with junk before init; all five families via family symbols and via the isal_/legacy API forced onto the family; mh_sha1 and mh_sha256; "
+              "filled with junk before init and placed at 0 or 8 modulo 16 (the type guarantees 8); all five families via family symbols and via the isal_/legacy API forced onto the family; mh_sha1 and mh_sha256; "
+              "one stream of 2^29+100 bytes per family (bit length beyond 32 bits; thorough also 2^31+53 and 2^32-77) against an oracle built on OpenSSL's block transforms; "
               "distinct_nontrivial = distinct (algorithm, family, carried-partial class, piece class) and (algorithm, family, route, length class)"),
         assumptions=TRUST + ["multi-hash reference built from the statement of C05 on top of the reference SHA-1/SHA-256 compression functions; the [word][segment] interim-digest layout hashed by the outer hash is the library's documented on-disk format"],
-        tasks=mh_tasks("C05", ["mh_sha1", "mh_sha256"], MH_FAMS, 2700, 40000),
+        tasks=lambda tier: mh_tasks("C05", ["mh_sha1", "mh_sha256"], MH_FAMS, 2700, 40000)(tier)
+        + [dict(engine="mhroll", variant="plain", timeout=3000, args=["--prop", "C05", "--what", w, "--fam", f, "--from", 0, "--count", 1, "--watchdog", 2900]) for w in ("mh_sha1_huge", "mh_sha256_huge") for f in MH_FAMS],
     ),
     "C10": dict(
         technique='runtime differential oracle: reference multi-hash SHA-1 and reference MurmurHash3_x64_128 vs every family and route',
         level="exploration", evaluations="mh_streams", must_observe=["mh_streams", "mh_update_calls"] + ["cases_" + f for f in MH_FAMS],
         rule=("as C05 for the stitched mh_sha1_murmur3_x64_128: both outputs are compared, the SHA-1 side with the multi-hash reference and the murmur side with a "
-              "reference MurmurHash3_x64_128 (h1=h2=seed) of the whole stream; seeds 0, 1, 2^64-1 and random; stream lengths cover every value of len mod 16 and len mod 1024"),
+              "reference MurmurHash3_x64_128 (h1=h2=seed) of the whole stream; seeds 0, 1, 2^64-1 and random; stream lengths cover every value of len mod 16 and len mod 1024; "
+              "one stream of 2^31+53 bytes per family (thorough also 2^29+100 and 2^32-77)"),
         assumptions=TRUST,
-        tasks=mh_tasks("C10", ["murmur"], MH_FAMS, 2700, 40000),
+        tasks=lambda tier: mh_tasks("C10", ["murmur"], MH_FAMS, 2700, 40000)(tier)
+        + [dict(engine="mhroll", variant="plain", timeout=3000, args=["--prop", "C10", "--what", "murmur_huge", "--fam", f, "--from", 0, "--count", 1, "--watchdog", 2900]) for f in MH_FAMS],
     ),
     "C09": dict(
         technique='runtime differential oracle: from-scratch evaluation of the table formula at every position vs the three scan kernels, forced through the dispatcher and called directly; pinned golden table',
@@ -466,9 +470,11 @@ CHECKS = {
               "random bits or from mask_gen, trigger a subset of mask or 0; the stream is consumed by run calls with max_len 0, 1, <w, =w, w+1, rest, random, resuming where the "
               "previous call stopped; after every call offset+match are compared with a from-scratch evaluation of the table formula at every position, and state hash and "
               "remembered window with the last w bytes; the three scan kernels are forced through the dispatcher and also called directly on identical arguments; "
-              "the 256-entry table is compared with a pinned golden copy; mask_gen is checked for all shifts around all powers of two"),
+              "the 256-entry table is compared with a pinned golden copy; mask_gen is checked for all shifts around all powers of two; the state memory is junk before init, in a quarter of the cases "
+              "junk whose every word equals the requested window; per scan kernel two single run calls over more than 2^31 bytes of random data (hit just below / above 2^31) against an incremental model"),
         assumptions=TRUST + ["golden copy of the rolling-hash table taken from the pinned snapshot (the constant defines the on-disk chunking format)"],
-        tasks=mh_tasks("C09", ["rolling"], ["base", "00", "04"], 1500, 30000),
+        tasks=lambda tier: mh_tasks("C09", ["rolling"], ["base", "00", "04"], 1500, 30000)(tier)
+        + [dict(engine="mhroll", variant="plain", timeout=3000, args=["--prop", "C09", "--what", "rolling_huge", "--fam", f, "--from", 0, "--count", 1, "--watchdog", 2900]) for f in ("base", "00", "04")],
     ),
     "C08": dict(
         technique='guard pages + read-only mappings + canaries around exact-size buffers, AddressSanitizer on the C layers, valgrind memcheck on exact-size heap blocks',
